@@ -5,6 +5,7 @@ Model: coq/Config/{Types,Schema}.v.  Correspondences:
                      types (all classes, Pair/List nesting) and the bundled schema types
   corr:validate      config._validate on the core + bundled extension schemas and on
                      synthetic schema lists
+  (monitor-only)     config.load on real files/directories with faults (generator shared with C14)
 Monitors (the theorem predicates on the real execution): types_only_valueerror,
 result_complete_sound, unknown_key_suggestion, deprecated_absent, unknown_sections_ignored,
 pointwise.
@@ -397,7 +398,7 @@ def corpus_cases(kind):
 
 def ty_from_json(j):
     if isinstance(j, list) and j and j[0] == "oracle":
-        return ("oracle", j[1], lambda x: x.upper()[:5])
+        return ("oracle", j[1], cfglib.ORACLE_TRS.get(j[1], cfglib.ORACLE_TRS[7]))
     if isinstance(j, list):
         return tuple(ty_from_json(x) for x in j)
     return j
@@ -643,6 +644,78 @@ def pointwise_probe(chk, ss, raw, out, rng, scratch, case):
                             {**case, "raw2": raw2, "entry": [sec, k]})
 
 
+# ------------------------------------------------------------------ stage 3: config.load on real files
+
+
+def load_stage(chk, schemas):
+    """The property's outermost clause: for any combination of config text, FILES and overrides,
+    config.load returns (config, errors) without raising, and the result is complete and sound.
+
+    Source stacks come from the C14 generator (files, directories with sub-directories / sockets /
+    dangling links named *.conf, absent / unreadable / unopenable / header-less / broken files,
+    duplicates, undecodable bytes, keyring, overrides) and are rendered to real files; the real
+    core + bundled extension schemas and defaults are used.  Monitor-only (the layering itself is
+    C14's correspondence)."""
+    import c14
+    from mopidy import config as C
+    from mopidy import file, http, m3u, softwaremixer, stream
+
+    rng = chk.rng
+    n = 250 if chk.tier == "quick" else 2500
+    exts = [m.Extension() for m in (http, file, m3u, softwaremixer, stream)]
+    stacks = [c14.gen_stack(rng) for _ in range(n)]
+    cdir = vlib.VERIF / "corpus" / "C14"
+    if cdir.is_dir():
+        for f in sorted(cdir.glob("*.json")):
+            stacks = json.loads(f.read_text())["stacks"] + stacks
+    if chk.replay_case and chk.replay_case.get("stage") == "load":
+        stacks = [chk.replay_case["stack"]]
+    for stack in stacks:
+        stack = json.loads(json.dumps(stack))
+        case = {"stage": "load", "stack": stack}
+        mat = c14.Materialised(stack)
+        captured = {}
+        real_validate, real_fetch = C._validate, C.keyring.fetch
+
+        def spy(raw, schemas_, _real=real_validate, _cap=captured):
+            _cap["raw"] = raw
+            return _real(raw, schemas_)
+
+        keyring = [(s_, k_, v_.encode("utf-8", "surrogateescape")) for s_, k_, v_ in stack["keyring"]]
+        rec = Recorder()
+        try:
+            with c14.Faults(mat), rec.active():
+                C._validate, C.keyring.fetch = spy, (lambda: list(keyring))
+                try:
+                    cfg, errs = C.load(list(mat.paths), [e.get_config_schema() for e in exts],
+                                       [e.get_default_config() for e in exts]
+                                       + [c14.render_lines(d, 17 + i) for i, d in enumerate(stack["defaults"])],
+                                       [tuple(o) for o in stack["overrides"]])
+                    out = ("ok", cfg, errs)
+                except Exception as e:  # noqa: BLE001
+                    out = ("raise", type(e).__name__)
+                finally:
+                    C._validate, C.keyring.fetch = real_validate, real_fetch
+        finally:
+            mat.close()
+        shapes = sorted({m["shape"] for fe in stack["files"] if "dir" in fe for m in fe["dir"]})
+        chk.count(1, nontrivial_key=json.dumps(stack, sort_keys=True) if stack["files"] else None)
+        chk.dist("load:outcome=" + (out[0] if out[0] == "ok" else out[1]))
+        for sh in shapes:
+            chk.dist("load:dir-member=" + sh)
+        if out[0] != "ok":
+            chk.monitor_failure("types_only_valueerror", {"call": "load", "exception": out[1]},
+                                f"{out[1]} escaped config.load on real files", case)
+            continue
+        raw = {sec: {k: (v.decode(errors="surrogateescape") if isinstance(v, bytes) else v) for k, v in kv.items()}
+               for sec, kv in captured.get("raw", {}).items()}
+        if any(not isinstance(v, str) for kv in raw.values() for v in kv.values()):
+            chk.monitor_failure("result_complete_sound", {"call": "load", "what": "non-text-raw-value"},
+                                "config.load handed a non-text raw value to the schemas", case)
+            continue
+        monitor_validate(chk, schemas, raw, out, case)
+
+
 # ------------------------------------------------------------------ search hook
 
 
@@ -716,6 +789,8 @@ def run(chk):
         t1 = time.time()
         if not chk.replay_case or chk.replay_case.get("stage") == "validate":
             validate_stage(chk, scratch, schemas, base)
+        if not chk.replay_case or chk.replay_case.get("stage") == "load":
+            load_stage(chk, schemas)
         chk.notes.append(f"stage wall: deserialize {t1 - t0:.1f}s, validate {time.time() - t1:.1f}s")
     finally:
         scratch.close()
